@@ -646,6 +646,9 @@ func GenOp(r *rand.Rand, p *Profile, nAcct int) Op {
 				ms.Signers = append(ms.Signers, i)
 			}
 		}
+		if r.Intn(5) == 0 {
+			ms.Twice = true
+		}
 		op.MS = ms
 	}
 	return op
